@@ -34,7 +34,7 @@ REAL = ['smartquery.* (two independently imported copies)', 'smartquery.ply']
 STUB = ['parse_cache mapping (simulator-owned fakes)', 'host (mutates returned results)']
 REACH_PROBES = ('cache_hit', 'hit_after_fault', 'near_duplicate_call', 'lru_evict', 'cache_evict', 'cache_drop_write',
                 'host_mutate_result', 'failing_source', 'reentry', 'prewarmed_hit', 'same_source_other_names',
-                'cached_tree_snapshot_checked')
+                'cached_tree_snapshot_checked', 'list_names_between_calls', 'decimal_context_switched')
 
 STRIP_CHARS = [' ', '\t', '\n', '\r\n', '\x0b', '\x0c', '\x1c', '\x1d', '\x1e', '\x1f', '\x85', '\xa0', ' ', ' ', '　', '  ', '\n\n']
 
@@ -84,9 +84,13 @@ def generate(seed, tier):
         if rf.random() < 0.2:
             _, src = badsrc.make_bad(rf, src)
         pool.append(src)
+    deep_idx = None
     if rc.random() < 0.25:
-        # deeply nested but perfectly valid programs (a limit on depth, if one exists, must treat both worlds alike)
-        d = rc.randint(150, 320)
+        # deeply nested but perfectly valid programs (a limit on depth, if one exists, must treat both worlds alike);
+        # the deepest ones are only parsed (the LR driver is iterative; evaluating them is a matter of interpreter stack)
+        d = rc.choice([rc.randint(150, 320), 600, 1100, 1400])
+        if d > 320:
+            deep_idx = len(pool)
         pool.append(rc.choice(['- ' * d + '1', 'x = ' + '[' * d + ']' * d + '\nlen(x)', 'not ' * d + 'True',
                                '1' + ' + 1' * d, '0' + ' if False else 0' * min(d, 200)]))
     if rc.random() < 0.35:
@@ -103,7 +107,16 @@ def generate(seed, tier):
     ops = []
     weights = [1.0 / (i + 1) for i in range(len(pool))]
     for _ in range(rc.randint(8, 40)):
-        k = weighted(ro, [('eval', 6), ('parse', 3), ('host_mutate', 1.5), ('cache_fault', 1.2)])
+        k = weighted(ro, [('eval', 6), ('parse', 3), ('host_mutate', 1.5), ('cache_fault', 1.2), ('list_names', 0.8), ('ctx', 0.3)])
+        if k == 'ctx':
+            # the host switches the thread's decimal context between calls (both worlds live under it)
+            ops.append({'op': 'ctx', 'prec': ro.choice([5, 8, 28, 40, 3])})
+            continue
+        if k == 'list_names':
+            # the dependency lister runs on the same parser objects, to the end or abandoned after j names
+            ops.append({'op': 'list_names', 'src': ro.choice(pool + ['f(a, [b, {c: (d', 'a + (b', 'x[1', '{"k": [y, (z']), 'consume': ro.choice([None, None, 0, 1, 2, 3]),
+                        'pool': 0, 'space': 0})
+            continue
         if k == 'host_mutate':
             ops.append({'op': 'host_mutate', 'which': ro.randint(0, 3), 'how': ro.choice(['append', 'clear', 'set0', 'nested_append'])})
             continue
@@ -112,6 +125,8 @@ def generate(seed, tier):
             continue
         i = weighted(ro, list(zip(range(len(pool)), weights)))
         src = pool[i]
+        if i == deep_idx:
+            k = 'parse'
         near = None
         if ro.random() < 0.3:
             pre = ''.join(ro.choice(STRIP_CHARS) for _ in range(ro.randint(0, 2)))
@@ -143,6 +158,7 @@ class Side:
         self.host = Host()
         self.spaces = [{k: lang.dec_value(v) for k, v in sp.items()} for sp in cfg['spaces']]
         self.results = []
+        self.suspended = []
         self.tainted = False
         self.cache = None
         if cached:
@@ -158,7 +174,19 @@ def _call(side, op):
     ENTROPY.script(op.get('entropy', 0))
     try:
         if op['op'] == 'parse':
-            return ['value', repr(side.parser.parse(op['src']))]
+            return ['value', canon.tree_digest(side.parser.parse(op['src']))]
+        if op['op'] == 'list_names':
+            got = []
+            it = iter(side.parser.list_names(op['src']))
+            n = op.get('consume')
+            while n is None or len(got) < n:
+                try:
+                    got.append(next(it))
+                except StopIteration:
+                    break
+            if n is not None:
+                side.suspended.append(it)       # abandoned midway, kept alive
+            return ['value', got]
         if side.cache is not None:
             rec = monitors.Rec()
             rec.track_kinds = False
@@ -218,6 +246,12 @@ def execute(case, ctx):
                 ctx.report('results_diverged_after_host_mutation', 'step %d: results held by the host differ between cached and uncached worlds' % step,
                            {'kind': 'results_diverged_after_host_mutation'})
             continue
+        if op['op'] == 'ctx':
+            import decimal
+            decimal.getcontext().prec = op['prec']
+            ctx.fault('decimal_context_switch')
+            ctx.probe('decimal_context_switched')
+            continue
         if op['op'] == 'cache_fault':
             before = len(A.cache.d)
             if op['kind'] == 'evict_all':
@@ -246,8 +280,21 @@ def execute(case, ctx):
         what = 'step %d %s(%r) [cache %s%s]' % (step, op['op'], op['src'][:160], cfg['cache']['kind'], ', hit' if hit else '')
         if a[0] == 'base':
             ctx.report('non_exception_escaped', '%s: %s' % (what, a), {'kind': 'non_exception_escaped'})
-        if (a[0] == 'exc' and 'RecursionError' in a[1]) or (b[0] == 'exc' and 'RecursionError' in b[1]):
+        ra = a[0] == 'exc' and 'RecursionError' in a[1]
+        rb = b[0] == 'exc' and 'RecursionError' in b[1]
+        if ra and not rb and op['op'] == 'parse':
+            # parsing is iterative (LR driver) and both worlds run the same code from the same stack depth: only what
+            # the cached path does on top of it can have used up the stack
+            ctx.report('cache_not_transparent', '%s: the cached parser ran out of interpreter stack (%s), the uncached parser returned the tree' % (what, a[2][:80]),
+                       {'kind': 'cache_not_transparent', 'call': 'parse-depth'})
+        if ra or rb:
             ctx.stats['skipped_recursion_depth'] += 1     # interpreter stack depth is not a property of the library
+            continue
+        if op['op'] == 'list_names':
+            ctx.probe('list_names_between_calls')
+            if a != b:
+                ctx.report('cache_not_transparent', '%s: cached parser -> %s ; uncached parser -> %s' % (what, str(a)[:240], str(b)[:240]),
+                           {'kind': 'cache_not_transparent', 'call': 'list_names'})
             continue
         if a != b:
             ctx.report('cache_not_transparent', '%s: cached parser -> %s ; uncached parser -> %s' % (what, str(a)[:240], str(b)[:240]),
@@ -278,12 +325,12 @@ def execute(case, ctx):
             if ('chk', k) not in used:
                 used[('chk', k)] = True
                 try:
-                    want = repr(boot.twin_parser().parse(k))
+                    want = canon.tree_digest(boot.twin_parser().parse(k))
                 except Exception as e:
                     want = 'raises ' + type(e).__name__
-                if repr(tree) != want:
-                    ctx.report('cache_entry_wrong', '%s: cache[%r] holds %s but an uncached parse of that key gives %s' % (
-                        what, k[:80], repr(tree)[:200], want[:200]), {'kind': 'cache_entry_wrong'})
+                if canon.tree_digest(tree) != want:
+                    ctx.report('cache_entry_wrong', '%s: cache[%r] holds another tree (%s) than an uncached parse of that key gives (%s)' % (
+                        what, k[:80], canon.tree_digest(tree), want), {'kind': 'cache_entry_wrong'})
         if hit:
             ctx.probe('cache_hit')
             if fault_seen:
